@@ -238,10 +238,12 @@ func (d *Dialer[T]) Dial(ctx context.Context, network, addr string, tc *tls.Conf
 				if tc.ServerName == "" {
 					tc.ServerName = target.host
 				}
-				if needECH && target.resolved.ECH != nil {
+				// An HTTPS record may carry an ech parameter of zero length:
+				// that is not a config list.
+				if needECH && len(target.resolved.ECH) > 0 {
 					tc.EncryptedClientHelloConfigList = target.resolved.ECH
 				}
-				if d.RequireECH && tc.EncryptedClientHelloConfigList == nil {
+				if d.RequireECH && len(tc.EncryptedClientHelloConfigList) == 0 {
 					sendErr(fmt.Errorf("%s: unable to get ECH config list", target.host))
 					continue
 				}
